@@ -83,8 +83,12 @@ def run(chk):
     from . import c16 as _c16
     chk.rule("R16.1", "normaliser table: one push per char, default identity, idempotent (shared with C16)")
     chk.rule("R16.5", "copy sites order (shared with C16)")
-    _c16.normaliser(chk, w)
+    with chk.only(rules={"R16.1"}, keys=lambda k: "idempotent" not in k and "default-identity" not in k):
+        _c16.normaliser(chk, w)
     _c16.copy_sites(chk, w)
+    chk.rule("R16.3", "wsconst letter tables of predict and evaluate (shared with C16)")
+    with chk.only(rules={"R16.3"}, keys=lambda k: k.startswith("R16.3:predict") or k.startswith("R16.3:evaluate")):
+        _c16.letters(chk, w)
     for rid, txt in (("R20.1", "per-line output event sequences; sibling loops agree"), ("R20.2", "tag candidates only after fill_tags on the same sentence"),
                      ("R20.3", "pipeline order and flag wiring"), ("R20.4", "evaluate counter tables and metric formulas"), ("R20.5", "error discipline in the tools")):
         chk.rule(rid, txt)
